@@ -1723,3 +1723,86 @@ _RT20 = {
 }
 for _p, _l in _RT20.items():
     VARIANTS.setdefault(_p, []).extend(_l)
+
+# ---- round 21: added guards (rat.Fork), added state, length grades --------
+_RT21 = {
+    'C01': [
+        T('rt21-pickup-fast-path-offset-zero',
+          (O + 'pickup.py',
+           '        new_value = self.scale * old_value + self.offset\n',
+           '        if self.offset == 0:\n'
+           '            new_value = self.scale * old_value\n'
+           '        else:\n'
+           '            new_value = self.scale * old_value + self.offset\n')),
+        M('rt21-pickup-skipped-when-offset-zero',
+          (O + 'pickup.py',
+           '        new_value = self.scale * old_value + self.offset\n',
+           '        if self.offset == 0:\n'
+           '            return\n'
+           '        new_value = self.scale * old_value + self.offset\n')),
+        M('rt21-optic-update-memo',
+          (O + 'optic.py', '    def update(self):\n',
+           '    def update(self):\n'
+           '        if getattr(self, \'_updated\', False):\n'
+           '            return\n'
+           '        self._updated = True\n')),
+    ],
+    'C04': [
+        M('rt21-f2-memo',
+          (PX, '    def f2(self):\n',
+           '    def f2(self):\n'
+           '        if getattr(self, \'_f2\', None) is not None:\n'
+           '            return self._f2\n'
+           '        self._f2 = self._f2_uncached()\n'
+           '        return self._f2\n\n'
+           '    def _f2_uncached(self):\n')),
+    ],
+    'C07': [
+        M('rt21-launch-plane-absolute-margin',
+          (RG, '        return offset - np.min(z)\n',
+           '        return offset - np.min(z) + 1.0\n')),
+        T('rt21-launch-plane-relative-margin',
+          (RG, '        return offset - np.min(z)\n',
+           '        return 1.5 * offset - np.min(z)\n')),
+    ],
+    'C08': [
+        M('rt21-b-zeroed-below-tolerance',
+          (AB, '            if denom == 0:\n',
+           '            if abs(denom) < 1e-9:\n')),
+    ],
+    'C10': [
+        M('rt21-fit-rounds-solution',
+          (ZK, 'rcond=None)\n        self.zernike.coeffs = coeffs\n',
+           'rcond=None)\n        coeffs[np.abs(coeffs) < 1e-12] = 0\n'
+           '        self.zernike.coeffs = coeffs\n')),
+        T('rt21-fit-validates-sample-count',
+          (ZK, '        z = np.ravel(self.z)\n',
+           '        z = np.ravel(self.z)\n'
+           '        if z.size == 0:\n'
+           '            raise ValueError(\'no samples\')\n')),
+    ],
+    'C17': [
+        M('rt21-fresnel-where-zeroes-p',
+          (JN, '            jones_matrix[:, 0, 0] = s\n'
+               '            jones_matrix[:, 1, 1] = p\n'
+               '            jones_matrix[:, 2, 2] = 1\n',
+           '            grazing = aoi > 1.5\n'
+           '            p = np.where(grazing, 0, p)\n'
+           '            jones_matrix[:, 0, 0] = s\n'
+           '            jones_matrix[:, 1, 1] = p\n'
+           '            jones_matrix[:, 2, 2] = 1\n')),
+    ],
+    'C18': [
+        M('rt21-module-level-memo',
+          (O + 'materials/abbe.py', 'class AbbeMaterial(',
+           '_COEFF_CACHE = {}\n\n\nclass AbbeMaterial('),
+          (O + 'materials/abbe.py',
+           '        coefficients = np.load(coefficients_file)\n',
+           '        if \'c\' not in _COEFF_CACHE:\n'
+           '            _COEFF_CACHE[\'c\'] = X_poly @ np.load(coefficients_file)\n'
+           '        return _COEFF_CACHE[\'c\']\n'
+           '        coefficients = np.load(coefficients_file)\n')),
+    ],
+}
+for _p, _l in _RT21.items():
+    VARIANTS.setdefault(_p, []).extend(_l)
